@@ -255,6 +255,99 @@ mod driver {
         })
     }
 
+    /// C04: the core engine's own pending-query table (LruCache capped at 10 000): query_node_for_key with a mock transport, handle_response
+    pub fn engine_pending(case: &Value) -> Value {
+        use std::sync::atomic::{AtomicBool, Ordering};
+        struct Mock {
+            ok: bool,
+            sent: AtomicBool,
+            id: String,
+        }
+        #[async_trait::async_trait]
+        impl crate::network::NetworkSender for Mock {
+            async fn send_message(&self, _peer_id: &crate::PeerId, _protocol: &str, _data: Vec<u8>) -> crate::Result<()> {
+                self.sent.store(true, Ordering::SeqCst);
+                if self.ok {
+                    Ok(())
+                } else {
+                    Err(crate::P2PError::Network(crate::error::NetworkError::ProtocolError("mock send failure".into())))
+                }
+            }
+            fn local_peer_id(&self) -> &crate::PeerId {
+                &self.id
+            }
+        }
+        let s = |id: u64| format!("s{id:016x}");
+        // model booleans arrive as JSON booleans
+        let u = |case: &Value, k: &str| -> u64 {
+            match case.get(k) {
+                Some(Value::Bool(b)) => *b as u64,
+                Some(v) => v.as_u64().unwrap_or(0),
+                None => 0,
+            }
+        };
+        let is_query = case["__driver"].as_str() == Some("engine_query");
+        if is_query && u(case, "env.serialize_ok") == 0 {
+            panic!("unknown driver outcome: a serialisation failure cannot be forced natively");
+        }
+        if is_query && u(case, "env.send_ok") == 1 && u(case, "env.wait_kind") != 2 && (u(case, "E.pending.count") as usize) < MAX_PENDING_DHT_REQUESTS {
+            panic!("unknown driver outcome: a reply / closed channel cannot be forced natively (the request id is internal)");
+        }
+        let rt = tokio::runtime::Builder::new_current_thread().enable_all().build().unwrap();
+        rt.block_on(async {
+            let engine = DhtCoreEngine::new_with_validation_mode(NodeId::from_bytes([0u8; 32]), CloseGroupEnforcementMode::LogOnly).unwrap();
+            let n0 = (u(case, "E.pending.count") as usize).min(20_000);
+            let other = s(u(case, "other"));
+            let mid = s(u(case, "mid"));
+            let mut keep = Vec::new();
+            let mut rx_other = None;
+            let mut rx_mid = None;
+            let mut known: Vec<String> = Vec::new();
+            {
+                let mut p = engine.pending_requests.write().await;
+                if case.get("E.pending@other.present").and_then(|v| v.as_bool()).unwrap_or(false) {
+                    let (tx, rx) = oneshot::channel();
+                    rx_other = Some(rx);
+                    p.put(other.clone(), tx);
+                    known.push(other.clone());
+                }
+                if !is_query && case.get("E.pending@mid.present").and_then(|v| v.as_bool()).unwrap_or(false) {
+                    let (tx, rx) = oneshot::channel();
+                    rx_mid = Some(rx);
+                    p.put(mid.clone(), tx);
+                    known.push(mid.clone());
+                }
+                let mut i = 0u64;
+                while p.len() < n0 {
+                    let (tx, rx) = oneshot::channel();
+                    keep.push(rx);
+                    let k = format!("filler-{i}");
+                    p.put(k.clone(), tx);
+                    known.push(k);
+                    i += 1;
+                }
+            }
+            let mut out = serde_json::Map::new();
+            if is_query {
+                let mock = Arc::new(Mock { ok: u(case, "env.send_ok") == 1, sent: AtomicBool::new(false), id: "mock".into() });
+                let node = mk([1u8; 32], 1);
+                let r = engine.query_node_for_key(mock.clone(), &node, &DhtKey::from_bytes([0u8; 32])).await;
+                out.insert("ok".into(), json!(r.is_ok()));
+                out.insert("sent".into(), json!(mock.sent.load(Ordering::SeqCst)));
+            } else {
+                engine.handle_response(DhtResponseWrapper { id: mid.clone(), response: DhtResponse::LeaveAck { confirmed: true } }).await;
+                out.insert("delivered_mid".into(), json!(rx_mid.as_mut().map(|r| r.try_recv().is_ok()).unwrap_or(false)));
+                out.insert("delivered_other".into(), json!(rx_other.as_mut().map(|r| r.try_recv().is_ok()).unwrap_or(false)));
+            }
+            let p = engine.pending_requests.read().await;
+            out.insert("post.count".into(), json!(p.len() as u64));
+            out.insert("post.pending@other".into(), if p.contains(&other) { json!([u(case, "E.pending@other.v0")]) } else { Value::Null });
+            let leftover = if is_query { p.iter().any(|(k, _)| !known.contains(k)) } else { p.contains(&mid) };
+            out.insert("post.pending@mid".into(), if leftover { json!([u(case, "E.pending@mid.v0")]) } else { Value::Null });
+            Value::Object(out)
+        })
+    }
+
     pub fn dispatch(case: &Value) -> Value {
         let rt = tokio::runtime::Builder::new_current_thread().enable_all().build().unwrap();
         rt.block_on(async {
@@ -618,6 +711,7 @@ fn verif_replay_entry() {
         "mutation" => driver::mutation(&case),
         "engine_ops" => driver::engine_ops(&case),
         "dispatch" => driver::dispatch(&case),
+        "engine_query" | "engine_response" => driver::engine_pending(&case),
         "kv_engine_store" | "kv_engine_retrieve" => driver::kv_engine(&case),
         "admission" => driver::admission(&case),
         "admission_step" => driver::admission_step(&case),
